@@ -36,7 +36,8 @@ LEVEL_TEXT = ("Exploration: thousands of generated documents (1-6 alternatives p
               "brackets / bars / colour markers, colour markers before the label and between "
               "points) through all three entry points; every token-boundary prefix of sampled "
               "documents, every character prefix of small ones, and every point as a corruption "
-              "site. Held = held on those executions.")
+              "site. Held = held on those executions."
+              " Zero-radius samples; long documents in which almost every point carries a long annotation (most of the text is comment text, > 250 000 characters per document).")
 LEVEL_NOTE = ("Comments are placed at line ends anywhere between tokens except inside a point or a "
               "marker (before the document, after brackets, bars, points, colour markers and the "
               "label); colour markers before the label and between points. Expected coordinates are float32(float(token)). The step budget is "
@@ -52,7 +53,8 @@ ASSUMPTIONS = [
 REQUIRED = ["documents_converted", "rows_compared", "nested_splits", "empty_first_alt",
             "empty_later_alt", "empty_split", "points_after_split", "documents_with_repeated_points",
             "path_converted_again_after_rewrite", "with_comments", "with_colours",
-            "deep_documents", "long_branches", "prefixes_tried", "prefixes_rejected",
+            "deep_documents", "long_branches", "densely_commented_long_documents",
+            "documents_with_zero_radius_points", "prefixes_tried", "prefixes_rejected",
             "corruptions_tried", "corruptions_rejected", "entry_from_stream", "entry_convert",
             "entry_call", "comment_invariance_checked", "tap_parser_raise"]
 FLOOR = {"quick": 1500, "thorough": 30000}
@@ -96,6 +98,9 @@ def gen_model(seed, shape="generic"):
         else:
             toks = [str(cnt[0]) if rng.random() < 0.7 else "%d.0" % cnt[0], num(), num(),
                     "%.2f" % (abs(float(rng.integers(1, 400))) / 16)]
+            if rng.random() < 0.04:  # a zero-diameter sample (marker / tapered-out tip)
+                toks[3] = str(rng.choice(["0", "0.0", "0.00", ".0"]))
+                cnt.append("zero")
         last[0] = toks
         return toks
 
@@ -144,7 +149,8 @@ def gen_model(seed, shape="generic"):
                               [("pt", point())]]))
     else:
         raise ValueError(shape)
-    return {"label": label, "top": top, "npoints": cnt[0], "repeated_points": len(cnt) - 1}
+    return {"label": label, "top": top, "npoints": cnt[0], "repeated_points": cnt.count("dup"),
+            "zero_radius_points": cnt.count("zero")}
 
 
 def expected_rows(model):
@@ -219,16 +225,21 @@ def features(model):
 
 
 # ---------------------------------------------------------------------------- rendering
-def render(model, rseed, *, comments=True, colours=True):
-    """Token list (each token a string; '\\n'-terminated comments are single tokens)."""
+def render(model, rseed, *, comments=True, colours=True, dense=False):
+    """Token list (each token a string; '\\n'-terminated comments are single tokens).
+    ``dense``: almost every point carries a long annotation (an exported file with per-point
+    notes), so that most of the text is comment text."""
     rng = np.random.default_rng(rseed)
     toks = []
     used = set()
 
     def maybe_comment(p):
-        if comments and rng.random() < p:
-            toks.append("; " + str(rng.choice(["a comment", "( | ) 1 2 3", "Root", "R-1-2",
-                                                "", "tab\there ; again"])) + "\n")
+        if comments and rng.random() < (max(p, 0.9) if dense else p):
+            c = str(rng.choice(["a comment", "( | ) 1 2 3", "Root", "R-1-2", "",
+                                "tab\there ; again"]))
+            if dense:
+                c += " ; (7 7 7 1) removed, 1281, R-2 " * int(rng.integers(1, 4))
+            toks.append("; " + c + "\n")
             used.add("comments")
 
     def maybe_colour(p):
@@ -353,8 +364,11 @@ def compare(ctx, case, rows, tree, what):
 def check_doc(ctx, case, tmp):
     model = gen_model(case["seed"], case["shape"])
     rows = expected_rows(model)
-    toks, used = render(model, case["rseed"])
+    toks, used = render(model, case["rseed"], dense=bool(case.get("dense")))
     text = to_text(toks, case["rseed"])
+    if case.get("dense"):
+        ctx.count("densely_commented_long_documents")
+        ctx.count("characters_in_densely_commented_documents", len(text))
     entry = case["entry"]
     for f in features(model):
         ctx.count(f)
@@ -366,6 +380,8 @@ def check_doc(ctx, case, tmp):
         ctx.count("long_branches")
     if model.get("repeated_points"):
         ctx.count("documents_with_repeated_points")
+    if model.get("zero_radius_points"):
+        ctx.count("documents_with_zero_radius_points")
     ctx.count("entry_" + {"from_stream": "from_stream", "convert": "convert",
                           "call": "call"}[entry])
     try:
@@ -503,11 +519,13 @@ def run(ctx):
         for k in range(ctx.scale(2400, 48000)):
             u = rng.random()
             shape = "generic" if u < 0.75 else ("wide" if u < 0.9 else "deep")
-            if k % 400 == 7:
+            if k % 400 in (7, 207):
                 shape = "long"
             case = {"kind": "doc", "seed": int(rng.integers(0, 2**31 - 1)), "shape": shape,
                     "rseed": int(rng.integers(0, 2**31 - 1)),
                     "entry": str(rng.choice(["from_stream", "from_stream", "convert", "call"]))}
+            if k % 400 == 207:
+                case["dense"] = True
             npts = gen_model(case["seed"], shape)["npoints"]
             ctx.case(case, nontrivial=npts >= 2, klass="doc/" + shape)
             execute(ctx, case)
